@@ -181,6 +181,8 @@ func (c *Component) recv(transport Transport) {
 		case stanza.StreamClosePacket:
 			// TCP messages should arrive in order, so we can expect to get nothing more after this occurs
 			transport.ReceivedStreamClose()
+			// The stream is over, whoever closed it first: report it like any other loss of connection.
+			c.updateState(StateDisconnected)
 			return
 		}
 		c.router.route(c, val)
